@@ -105,6 +105,17 @@ class Context:
             self._ufs[name] = z3.Function(name, *sorts)
         return self._ufs[name]
 
+    def seq_reverse(self, th, t):
+        f = self.uf('rev_' + th.name, th.sort, th.sort)
+        if not getattr(self, '_rev_ax_' + th.name, False):
+            setattr(self, '_rev_ax_' + th.name, True)
+            x = z3.Const('rv_s_' + th.name, th.sort)
+            i = z3.Int('rv_i_' + th.name)
+            self.fact_axioms.append(z3.ForAll([x], th.Len(f(x)) == th.Len(x), patterns=[f(x)]))
+            self.fact_axioms.append(z3.ForAll([x, i], z3.Implies(z3.And(0 <= i, i < th.Len(x)), th.Idx(f(x), i) == th.Idx(x, th.Len(x) - 1 - i)),
+                                              patterns=[th.Idx(f(x), i)]))
+        return f(t)
+
     def bxor(self, a, b):
         f = self.uf('bxor', T.I, T.I, T.I)
         if not getattr(self, '_bxor_ax', False):
